@@ -179,6 +179,15 @@ def h_scalar(sx, cfg):
     _check_image(sx, "pixel", A, n, lambda idx: arr[idx + (0,)], drawn)
     _check_geometry(sx, rec, fn, mesh, dims, pmin, pmax, mult, n)
     _untouched(sx, f, arr, valid, mesh, n)
+    if ff is None and kind != "call":
+        # history: the validity mask is edited in place after the first plot; the next plot follows the current mask
+        first = (0, 0)
+        now = not sx.decide(sx.truth(valid[first]))
+        f.valid[first] = now
+        rec2 = RecorderAxes()
+        (f.mpl.scalar if kind == "scalar" else f.mpl.contour)(**dict(kw, ax=rec2))
+        A2 = rec2.get(fn)[0][1][2] if kind == "contour" else rec2.get(fn)[0][1][0]
+        _check_image(sx, "pixel-after-in-place-mask-edit", A2, n, lambda idx: arr[idx + (0,)], lambda idx: now if idx == first else sx.truth(valid[idx]))
     if ff is not None:
         sx.check("filter-field-untouched", tuple(np.shape(ff.array))[-1] == 1)
 
@@ -220,6 +229,15 @@ def h_vector(sx, cfg):
         ca = sx.real_array("col", (*cn, 1))
         kw["color_field"] = df.Field(cm, nvdim=1, value=ca)
         color_expected = lambda idx: ca[(idx[0], 0, 0)]  # noqa: E731
+    elif cfg.get("color") == "field-same-count":
+        # another grid with the same number of cells: (n0*n1, 1) -- no plotted centre lies on one of its faces
+        tot = n[0] * n[1]
+        cn = (tot, 1)
+        cm = df.Mesh(region=mesh.region, n=cn)
+        ca = sx.real_array("col", (*cn, 1))
+        kw["color_field"] = df.Field(cm, nvdim=1, value=ca)
+        kw["use_color"] = True
+        color_expected = lambda idx: ca[(int(((idx[0] + 0.5) / n[0]) * tot), 0, 0)]  # noqa: E731
     try:
         if cfg.get("via_call"):
             kw2 = dict(ax=rec, vector_kw={k: v for k, v in kw.items() if k not in ("ax", "multiplier")}, scalar_kw=dict(colorbar=False))
@@ -366,6 +384,7 @@ def tasks(tier):
         vec.append(dict(n=list(n), nvdim=3, pairing=[0, 1], vdims=[2, 0], color="third"))
         vec.append(dict(n=list(n), nvdim=3, pairing=[0, 1], vdims=[None, 1]))
         vec.append(dict(n=list(n), nvdim=3, pairing=[2, 1], labels=["a", "b", "c"], color="field"))
+        vec.append(dict(n=list(n), nvdim=3, pairing=[0, 1], color="field-same-count"))
         vec.append(dict(n=list(n), nvdim=3, pairing=[1, 2], labels=["a", "b", "c"], via_call=True))
         vec.append(dict(n=list(n), nvdim=3, pairing=[None, None]))
     for j, cfg in enumerate(vec):
